@@ -108,6 +108,19 @@ def run(c: Check):
         c.violation("C02:neutral-edit-changes-identifier:meta-param-under-config-valued-default",
                     "Holder(sub=A(x=1, verbose=True)) and Holder() differ although verbose is a Meta parameter and A(x=1) is the default",
                     dict(probe="harness/drive_cfgdefault.py", got=pr))
+    # directed probes outside the model: argument tables under multiple inheritance (a Param re-declared as Meta by the
+    # first branch of a diamond stays ignored), and a configuration-valued default holding an explicit None
+    pr3 = run_impl("drive_typeprobe.py", {}, timeout=300)
+    c.count("probe:diamond-and-none-default")
+    if not pr3["diamond_x_ignored"] or pr3["diamond_ids"][0] != pr3["diamond_ids"][1] or pr3["diamond_ids"][0] == pr3["diamond_ids"][2]:
+        c.violation("C02:neutral-edit-changes-identifier:meta-parameter-in-diamond",
+                    "class Diamond(DLeft, DRight): DLeft re-declares x as Meta; changing x must not change the identifier (and z must)",
+                    dict(probe="harness/drive_typeprobe.py", got=pr3))
+    nd = pr3["none_default"]
+    if nd[0] != nd[1] or nd[0] == nd[2] or pr3["none_default_value"] is not None:
+        c.violation("C02:neutral-edit-changes-identifier:unset-vs-explicit-default:none-inside-default",
+                    "HolderB.sub: Param[OptB] = OptB(o=None) with o: Param[Optional[int]] = 3: HolderB() must be identified like "
+                    "HolderB(sub=OptB(o=None)) and hold o = None", dict(probe="harness/drive_typeprobe.py", got=pr3))
     c.level_assumptions = [
         "SHA-256 is a parameter H of every theorem; run with the Gallina SHA-256 validated against hashlib by the correspondence",
         "tags, explicit/token dependencies, launcher, workspace and run mode are not part of the model's node at all "
